@@ -129,6 +129,12 @@ def build(beh):
         t = build_tensor_ctor(beh["init"], depth, beh.get("ctor", "fromFiber"))
         return t, t.getRoot()
     f = proj.build_fiber(beh["init"])
+    if beh.get("ctor") == "maxcoord" and f.coords:
+        # the (deprecated, still accepted) constructor argument naming the largest coordinate
+        import warnings
+        with warnings.catch_warnings():
+            warnings.simplefilter("ignore")
+            f = Fiber(list(f.coords), list(f.payloads), max_coord=f.coords[-1])
     return f, f
 
 
